@@ -115,6 +115,7 @@ from . import cext as CX  # noqa: E402
 from aiokafka.record.default_records import _DefaultRecordBatchBuilderPy, _DefaultRecordBatchPy  # noqa: E402
 from aiokafka.record.legacy_records import _LegacyRecordBatchBuilderPy, _LegacyRecordBatchPy  # noqa: E402
 from aiokafka.record.memory_records import _MemoryRecordsPy  # noqa: E402
+from aiokafka.errors import UnsupportedCodecError  # noqa: E402
 
 KEYS = [None, b"", b"k", b"K" * 63, b"K" * 64]
 VALUES = [None, b"", b"v", b"V" * 200, bytes((i * 37 + 11) % 251 for i in range(43))]
@@ -156,7 +157,7 @@ def d1_v2_builder(src, max_records=3, small=False):
     values = [None, b"v", VALUES[-1]] if small else VALUES
     n = 1 + src.choice("records", max_records)
     ts = TIMESTAMPS[src.choice("timestamps", len(TIMESTAMPS))]
-    codec = src.choice("gzip", 2)
+    codec = src.choice("codec_none_gzip_snappy_lz4_zstd", 5)
     txn = src.flag("transactional")
     recs = []
     for i in range(n):
@@ -264,7 +265,7 @@ def _cx_decode(src, raw, what, info):
 
 def d2_legacy_builder(src, magic):
     n = 1 + src.choice("records", 3)
-    comp = src.choice("gzip", 2)
+    comp = src.choice("codec_none_gzip_snappy_lz4", 4)
     recs = []
     for i in range(n):
         recs.append(dict(offset=i, timestamp=[5, 9, 7][i], key=KEYS[src.choice(f"key{i}", 4)],
@@ -273,12 +274,17 @@ def d2_legacy_builder(src, magic):
     for r in recs:
         md = b.append(r["offset"], timestamp=r["timestamp"], key=r["key"], value=r["value"])
         src.check(md is not None, "legacy builder refused a record far below the batch size")
-    info = dict(magic=magic, gzip=comp, records=n)
+    info = dict(magic=magic, codec=comp, records=n)
     try:
         raw = bytes(b.build())
+    except UnsupportedCodecError:
+        # LZ4 with message format v0 is refused on purpose (KAFKA-3160: incompatible framing on old brokers)
+        src.check(magic == 0 and comp == 3, "legacy builder refuses a codec it supports", **info)
+        return
     except Exception as e:  # noqa: BLE001
         src.check(False, f"legacy builder build() raised {type(e).__name__}", **info)
         return
+    src.check(not (magic == 0 and comp == 3), "LZ4 in a v0 message set was not refused (KAFKA-3160)", **info)
     got = REF.decode_legacy_set(raw)
     want = [(r["offset"], r["key"], r["value"], r["timestamp"] if magic == 1 else -1) for r in recs]
     if comp and magic == 1 and len(recs) > 0:
@@ -307,9 +313,15 @@ def d3_concat(src):
             return REF.encode_v2(base, recs), recs
         if kind == "v2gz":
             return REF.encode_v2(base, recs, codec=1), recs
+        if kind in ("v2snappy", "v2lz4", "v2zstd"):
+            return REF.encode_v2(base, recs, codec={"snappy": 2, "lz4": 3, "zstd": 4}[kind[2:]]), recs
         m = int(kind[1])
+        if kind.endswith("snappy"):
+            return REF.encode_legacy(m, recs, compressed=True, codec=2), recs
+        if kind.endswith("lz4"):
+            return REF.encode_legacy(m, recs, compressed=True, codec=3), recs
         return REF.encode_legacy(m, recs, compressed=kind.endswith("gz")), recs
-    kinds = ["v0", "v1", "v2", "v1gz", "v0gz", "v2gz"]
+    kinds = ["v0", "v1", "v2", "v1gz", "v0gz", "v2gz", "v2snappy", "v2lz4", "v2zstd", "v0snappy", "v1snappy", "v1lz4"]
     n = 2 + src.choice("batches", 2)
     chosen = [kinds[src.choice(f"kind{i}", len(kinds))] for i in range(n)]
     raw = b""
@@ -345,6 +357,43 @@ def d3_concat(src):
             src.check(all(ok for ok, _ in r), "compiled codec: CRC of a valid batch reported invalid", **info)
 
 
+def d4_broker_stamped_wrapper(src):
+    """a v1 compressed message set as a broker with LogAppendTime stores it: the wrapper carries the
+    timestamp-type bit and the append time, the inner messages keep the producer's attributes and
+    timestamps -- every record reads back with the wrapper's timestamp and type LogAppendTime"""
+    codec = [1, 2, 3][src.choice("codec_gzip_snappy_lz4", 3)]
+    n = 1 + src.choice("records", 3)
+    stamped = src.flag("wrapper_has_log_append_time")
+    recs = [dict(offset=20 + i, timestamp=[5000, 4000, 6000][i], key=b"k%d" % i, value=b"v%d" % i) for i in range(n)]
+    inner = b"".join(REF.encode_legacy_message(1, i, r["timestamp"], r["key"], r["value"]) for i, r in enumerate(recs))
+    append_time = 777777
+    attrs = codec | (0x08 if stamped else 0)
+    raw = REF.encode_legacy_message(1, recs[-1]["offset"], append_time if stamped else max(r["timestamp"] for r in recs), None,
+                                    REF.compress(codec, inner), attrs)
+    want = [(r["offset"], append_time if stamped else r["timestamp"], 1 if stamped else 0, r["key"], r["value"]) for r in recs]
+    if src.twin:
+        want = want[:-1]
+    info = dict(codec=codec, records=n, stamped=stamped)
+    try:
+        got = []
+        m = _MemoryRecordsPy(raw)
+        while m.has_next():
+            b = m.next_batch()
+            src.check(b.validate_crc(), "valid wrapper reported corrupt", **info)
+            got += [(r.offset, r.timestamp, r.timestamp_type, r.key, r.value) for r in b]
+    except Exception as e:  # noqa: BLE001
+        src.check(False, f"pure-Python reader raised {type(e).__name__} on a broker-stamped compressed message set", **info)
+        return
+    src.check(got == want, "pure-Python reader: records of a compressed v1 message set do not carry the wrapper's timestamp / timestamp type",
+              got=str(got)[:200], want=str(want)[:200], **info)
+    if CX.available():
+        r = _cx_decode(src, raw, "a broker-stamped compressed v1 message set", info)
+        if r is not None:
+            cg = [(o, t, k, v) for (ok, rs) in r for (o, t, k, v, h) in rs]
+            src.check(cg == [(o, t, k, v) for (o, t, tt, k, v) in want], "compiled reader: offsets/timestamps of a broker-stamped compressed v1 message set differ",
+                      got=str(cg)[:200], **info)
+
+
 def prepare(tier):
     return CX.prepare()
 
@@ -363,6 +412,10 @@ def harnesses(tier):
                 symbolic_vars="finite-domain choices: 1-3 records, key/value from a boundary menu (null, empty, 63/64 bytes, incompressible), headers (null value, non-ASCII key), timestamp patterns (decreasing, delta > int32), gzip, transactional, producer id/epoch/sequence extremes, batch_size at/just below the encoded size",
                 bounds={"records": "1..3"}, note="differential against the independent reference codec (concrete enumeration); compiled codec compared when importable",
                 max_seconds=600, max_paths=3000000, twin_max_paths=200),
+        Harness(name="D4_broker_stamped_wrapper", fn=d4_broker_stamped_wrapper,
+                functions=[_LegacyRecordBatchPy.__iter__ if hasattr(_LegacyRecordBatchPy, "__iter__") else _LegacyRecordBatchPy], shape="S",
+                symbolic_vars="choices: codec (gzip/snappy/lz4), records, wrapper with or without the LogAppendTime bit",
+                bounds={"records": "1..3"}, max_seconds=120, twin_max_paths=50),
         Harness(name="D3_concatenation_mixed_formats", fn=d3_concat,
                 functions=[_MemoryRecordsPy._cache_next, _MemoryRecordsPy.next_batch], shape="U",
                 symbolic_vars="finite-domain choices: 2-3 batches each of v0/v1/v2/gzip wrappers, trailing partial batch of 0/5/12/17/len-1 bytes",
